@@ -37,7 +37,7 @@ ASSUMPTIONS = [
     "numba, numpy, moptipy are trusted",
     "seeded search: a clean batch is evidence, not proof",
 ]
-FAULT_KINDS = ["caller_reuses_item_matrix", "same_name_other_instance", "decode_wrong_multiset", "scribble_dest:extreme", "scribble_dest:other_packing",
+FAULT_KINDS = ["caller_threads_interleaved", "caller_reuses_item_matrix", "same_name_other_instance", "decode_wrong_multiset", "scribble_dest:extreme", "scribble_dest:other_packing",
                "scribble_dest:blocking", "scribble_dest:random",
                "scribble_scratch:extreme", "scribble_scratch:inverted",
                "scribble_scratch:wide", "scribble_scratch:random",
@@ -51,12 +51,18 @@ HARD_CAP_S = 120.0
 CHUNK = 16
 
 
-def plan(tier: str) -> list:
+def base_plan(tier: str) -> list:
     if tier == "quick":
         return [{"name": "nofault", "n": 4000, "faults": False, "big": False},
                 {"name": "fault", "n": 10000, "faults": True, "big": False}]
     return [{"name": "nofault", "n": 300000, "faults": False, "big": True},
             {"name": "fault", "n": 900000, "faults": True, "big": True}]
+
+
+def plan(tier: str) -> list:
+    return base_plan(tier) + [{"name": "threads", "threads": True,
+                               "n": 600 if tier == "quick" else 40000,
+                               "faults": False, "big": False}]
 
 
 def warmup() -> None:
@@ -96,7 +102,34 @@ def _gen_x(rng: random.Random, items: list, prev: list | None,
     return [v if rng.random() < 0.5 else -v for v in base], "fresh"
 
 
+def _generate_threads(rng: random.Random, batch: dict) -> dict:
+    """Two caller threads decoding at the same time: either with one shared
+    encoder object of encoding 1 (which keeps no state between calls) or
+    each with an encoder object of its own; destinations are never shared."""
+    while True:
+        inst = packgen.gen_instance(rng, big=False, shipped_p=0.0)
+        items = packgen.resolve_items(inst)
+        if sum(it[2] for it in items) <= 30:
+            break
+    encoders = rng.choice([[1, 1], [1, 1], [2, 2], [1, 2]])
+    share = encoders == [1, 1] and rng.random() < 0.6
+    threads = []
+    for e in encoders:
+        xs, prev = [], None
+        for _ in range(rng.choice([1, 2, 3])):
+            x, _how = _gen_x(rng, items, prev, xs)
+            xs.append(x)
+            prev = x
+        threads.append({"encoder": e, "xs": xs, "picks": [
+            [rng.random(), rng.random(), rng.random()]
+            for _ in range(rng.choice([1, 2, 4]))]})
+    return {"inst": inst, "encoder": encoders[0], "pool": 1, "ops": [],
+            "threads": threads, "share_encoder": share}
+
+
 def generate(rng: random.Random, batch: dict, depth: int = 0) -> dict:
+    if batch.get("threads"):
+        return _generate_threads(rng, batch)
     doc = _generate(rng, batch)
     if depth == 0 and "resource" not in doc["inst"] and rng.random() < 0.12:
         twin = _generate(rng, batch)
@@ -123,7 +156,8 @@ def _generate(rng: random.Random, batch: dict) -> dict:
     faults = batch.get("faults", False)
     p_fault = rng.choice([0.15, 0.3, 0.5]) if faults else 0.0
     enabled = [k for k in FAULT_KINDS if k not in (
-        "same_name_other_instance", "caller_reuses_item_matrix")
+        "same_name_other_instance", "caller_reuses_item_matrix",
+        "caller_threads_interleaved")
                and rng.random() < 0.7] if faults else []
     while len([o for o in ops if o["op"] == "decode"]) < n_ops:
         if enabled and rng.random() < p_fault:
@@ -230,7 +264,83 @@ def execute(doc: dict) -> dict:
                                          _execute_full, ("scribble_scratch",))
 
 
+def _execute_threads(doc: dict) -> dict:
+    import os
+
+    import numpy as np
+    from moptipyapps.binpacking2d.encodings.ibl_encoding_1 import (
+        ImprovedBottomLeftEncoding1)
+    from moptipyapps.binpacking2d.encodings.ibl_encoding_2 import (
+        ImprovedBottomLeftEncoding2)
+    from moptipyapps.binpacking2d.packing_space import PackingSpace
+    res = core.new_result()
+    inst = packgen.build_instance(doc["inst"], packgen.scenario_name(doc))
+    W, H = int(inst.bin_width), int(inst.bin_height)
+    items = [[int(v) for v in row] for row in doc["inst"]["items"]]
+    space = PackingSpace(inst)
+    xdtype = packgen.x_dtype(inst)
+    cls = {1: ImprovedBottomLeftEncoding1, 2: ImprovedBottomLeftEncoding2}
+    pre = core.Preempt((os.sep + "moptipyapps" + os.sep, ))
+
+    def bodies():
+        shared = cls[1](inst) if doc.get("share_encoder") else None
+        out = []
+        for th in doc["threads"]:
+            enc = shared if shared is not None else cls[int(th["encoder"])](
+                inst)
+            xs = [np.array(x, dtype=xdtype) for x in th["xs"]]
+
+            def body(enc=enc, xs=xs):
+                got = []
+                for x in xs:
+                    y = space.create()
+                    enc.decode(x, y)
+                    got.append(([[int(v) for v in row] for row in y],
+                                int(y.n_bins)))
+                return got
+            out.append(body)
+        return out
+    points = []
+    for th, body in zip(doc["threads"], bodies()):
+        _, table = pre.profile(body)
+        points.append(core.Preempt.pick_points(table, th["picks"]))
+    got, switches = pre.run(bodies(), points)
+    core.bump(res["faults"], "caller_threads_interleaved")
+    if doc.get("share_encoder"):
+        core.bump(res["probes"], "threads_share_encoder_1")
+    if switches >= 2:
+        core.bump(res["probes"], "thread_switches>=2")
+    res["events"].append(["threads", switches])
+    for i, (th, g) in enumerate(zip(doc["threads"], got)):
+        if isinstance(g, BaseException):
+            core.violation(res, "decode-raised",
+                           f"thread {i}: {type(g).__name__}: {g}")
+            break
+        for x, (rows, nb) in zip(th["xs"], g):
+            res["ops"] += 1
+            exp, exp_n = orc.bl_decode(W, H, items, list(x),
+                                       int(th["encoder"]))
+            res["states"].append(core.digest([rows, nb])[:16])
+            if rows != exp or nb != exp_n:
+                core.violation(
+                    res, "differs-from-documented-rule",
+                    f"encoder {th['encoder']}, W={W}, H={H}, items={items}, "
+                    f"x={list(x)}: thread {i} (while another thread decodes, "
+                    f"{switches} switches, shared encoder object: "
+                    f"{bool(doc.get('share_encoder'))}) got {rows} n_bins="
+                    f"{nb}, the documented procedure gives {exp} n_bins="
+                    f"{exp_n}")
+                break
+        if res["violation"] is not None:
+            break
+    res["sim_time"] = float(res["ops"])
+    res["nontrivial"] = switches >= 1
+    return res
+
+
 def _execute_full(doc: dict) -> dict:
+    if doc.get("threads"):
+        return _execute_threads(doc)
     """Optionally followed by a twin: another instance with the SAME name,
     its own encoder and destinations (nothing keyed by the name may leak)."""
     name = packgen.scenario_name(doc)
@@ -456,6 +566,14 @@ def _execute_one(doc: dict, name: str) -> dict:
 # ------------------------------------------------------------------ shrinking
 
 def reductions(doc: dict):
+    if doc.get("threads"):
+        for i, th in enumerate(doc["threads"]):
+            for key, mn in (("picks", 0), ("xs", 1)):
+                for cand in core.list_deletions(th[key], mn):
+                    ths = [dict(t) for t in doc["threads"]]
+                    ths[i][key] = cand
+                    yield {**doc, "threads": ths}
+        return
     if doc.get("twin") is not None:
         yield {k: v for k, v in doc.items() if k != "twin"}
         for cand in reductions(doc["twin"]):
